@@ -16,6 +16,7 @@ INVARIANT QueuedOnce
 INVARIANT Exclusive
 INVARIANT DeadGone
 INVARIANT CallerBlocked
+INVARIANT NestedBlocked
 INVARIANT TimerOK
 INVARIANT LockOwnerNotWaiting
 INVARIANT NoWaiterOnFreeLock
